@@ -75,7 +75,8 @@ CHECKS = {
              "position with the installed slots and strides for arity 1-4; methods compiled with a static_offsets "
              "specialisation dispatch with the generated numbers (compared with the oracle); under checked policies "
              "each perturbed position must raise static_slot_error / static_stride_error; samples of the text are "
-             "compiled with g++ and clang++.",
+             "compiled with g++ and clang++; a generated program with strides above 65535 (42-45 groups per dimension) "
+             "repeats the comparison through the public API.",
         design="5/C12"),
     "C13": dict(
         technique="runtime monitor: real decoder run on checked-iterator proxies (bounds, read-ahead) + behaviour comparison; sample texts compiled",
@@ -87,7 +88,9 @@ CHECKS = {
     "C14": dict(
         technique="runtime monitor: snapshot/compare of every other policy's observable state and behaviour around each operation",
         text="Exploration: random interleavings of operations over 2-3 policies sharing class ids; the complete "
-             "observable state and behaviour of the untouched policies is compared before/after every operation.",
+             "observable state and behaviour of the untouched policies is compared before/after every operation; "
+             "generated programs put 2-5 policies (the stock ones side by side, rebind-first and rebind-last derivations) "
+             "through the public front-end with shared keys, signatures and definition functions.",
         design="5/C14"),
     "C15": dict(
         technique="runtime fault enumeration: each class left out at each place, every argument route; error reports monitored",
@@ -104,7 +107,8 @@ CHECKS = {
              "virtual_ptrs and take erroring calls on 2-3 policies while another thread registers, updates and calls "
              "an unrelated policy with the same class ids; every result is compared with the answer computed "
              "single-threaded and the whole runs under ThreadSanitizer (reports de-duplicated by outermost yomm2 frame); "
-             "overlap actually observed is recorded.",
+             "overlap actually observed is recorded; generated multi-threaded programs repeat this on the stock policies "
+             "through the public API (callers on default_policy, an updater on another stock / derived policy, TSan fatal).",
         design="5/C16"),
     "C18": dict(
         technique="model-based runtime monitor: static_list vs vector model, exhaustive bounded enumeration + random sequences + real catalogs",
@@ -131,7 +135,9 @@ CHECKS = {
         technique="self-checking generated programs: the method's run-time catalog vs the generator's table, product order static_asserted",
         text="Exploration: generated programs instantiate use_definitions over products of 1-1089 combinations with "
              "several not_defined patterns; at run time the registered definitions are enumerated and compared with "
-             "the table, every combination is dispatched; sizes on both sides of the 512-element aggregate split.",
+             "the table, every combination is dispatched; sizes on both sides of the 512-element aggregate split; "
+             "products over 1-4 lists of every shape (one-element lists, repeated types, elements that are themselves "
+             "type lists) are compared at compile time with the product computed by the generator.",
         design="5/C20"),
     "C17": dict(
         technique="runtime monitor: update report vs. exhaustive oracle enumeration of argument tuples",
@@ -170,7 +176,7 @@ def main():
             {"name": "harness", "path": "harness/", "serves_properties": sorted(k for k in CHECKS if CHECKS[k].get("engine", "harness") == "harness"),
              "kind_free_text": "C++ runtime-monitoring harness (dynamic registries over the real yomm2 update/call path), "
                                "built per sanitizer flavour; driver bin/check"},
-            {"name": "tierb", "path": "lib/tierb.py", "serves_properties": ["C11", "C20"],
+            {"name": "tierb", "path": "lib/tierb.py", "serves_properties": ["C11", "C20"],  # (also the tier-B halves of C01-C03, C07-C10, C12, C14-C17: see DESIGN.md 0.1)
              "kind_free_text": "Python generators of self-checking C++ programs using only the public API, compiled with clang/gcc sanitizers"},
         ],
         "checks": [],
